@@ -23,7 +23,7 @@ func init() {
 		Level: "exploration",
 		Rule: "each case = one streamed input of N records (quick 5000, thorough 200000) of one format under a fixed set of ancestors, generated lazily " +
 			"(io.Reader over a record generator, never materialised); variants: targets that pass / fail the FINAL_OUTPUT filter interleaved, per-record " +
-			"transform failures, insignificant separators between records (whitespace/newlines in XML and JSON, blank lines in csv/fixed-length, CR/LF " +
+			"transform failures, respelled target filters (other quote character, literals containing a quote or bracket, two predicates, xml attribute tests), insignificant separators between records (whitespace/newlines in XML and JSON, blank lines in csv/fixed-length, CR/LF " +
 			"between EDI segments with ignore_crlf). Monitor: number of nodes reachable from the k-th delivered record (Parent links to the root, whole " +
 			"tree) sampled at k=1..20 and ~200 evenly spaced k; must satisfy max over the second half <= max over the first quarter. Growth is attributed " +
 			"by node class (type, depth relative to the record, sibling-of-record). distinct = (format, variant) streams; non-trivial = >=1000 records delivered.",
@@ -31,7 +31,7 @@ func init() {
 			"retention is measured as reachable idr nodes (the statement's own metric), not heap bytes; heap-in-use is reported but never decides",
 			"records of one stream have the same shape, so a correct reader shows an exactly constant size",
 		},
-		Cases: func(t core.Tier) int { return 56 },
+		Cases: func(t core.Tier) int { return 84 },
 		Run:   runC17,
 		Batch: func(t core.Tier) int { return 2 },
 		Min: func(t core.Tier) map[string]int64 {
@@ -119,10 +119,21 @@ func classify(root, rec *idr.Node) map[string]int {
 func runC17(c *core.Ctx) {
 	r := c.R
 	format := gen.Formats[c.Idx%len(gen.Formats)]
-	variant := c.Idx / len(gen.Formats) // 0..7
+	variant := c.Idx / len(gen.Formats) // 0..11
 	seps := variant&1 == 1
 	mode := []string{gen.ModePass, gen.ModeFilter, gen.ModeFailing, gen.ModeRich}[(variant>>1)%4]
 	k := gen.NewKit(r, format)
+	if variant >= 8 {
+		// other spellings of the same target filter (same records pass): the other quote character, a literal that contains a quote or
+		// a bracket, two predicates, and (xml) the attribute instead of the element
+		mode = gen.ModeFilter
+		fs := []string{`n!="0"`, `n!='0' and id!="it's"`, `n!='0'][id!=']'`, `n!="0" and id!='["'`}
+		if format == "xml" {
+			fs = []string{`@num!="0"`, `@num!='0' and @num!="it's"`, `@num!='0'][@num!=']'`, `@num!="0" and id!='["'`}
+		}
+		k.Filter = fs[variant-8]
+		c.Inc("streams_with_respelled_filters")
+	}
 	if k.IgnoreCRLF || format != "edi" {
 		// keep drawn options
 	} else if seps {
@@ -234,7 +245,7 @@ func runC17(c *core.Ctx) {
 		return
 	}
 	if delivered >= 1000 {
-		c.Distinct(format, mode, fmt.Sprint(seps))
+		c.Distinct(format, mode, fmt.Sprint(seps), k.Filter)
 	}
 	var firstQ, secondH int
 	for _, sp := range samples {
